@@ -569,4 +569,81 @@ theorem processLog_inv {lo hi : Nat} {st : Inner} {log : Log} (h : CInv lo st)
     simp only [processLog, h1]
     exact ih hc1 hm.2 (fun q hq => hl q (by simp [hq]))
 
+/-! ### what a fresh creator computes from a whole text -/
+
+/-- The creator never panics before serialization, and its final state satisfies the invariant with
+every recorded offset at most the text length. -/
+theorem preIndex_spec (pick : Pick) (text : List Byte) :
+    ∃ st, CInv text.length st ∧ st.pending = none ∧
+      preIndex pick [text] = if st.hasModule then .ix (st.toIndex pick) else .err := by
+  unfold preIndex
+  rw [consumeAll_eq _ _ LB.inv_init, lb_consumeAll_single]
+  simp only [Creator.init]
+  rw [LB.consume_eq_bytewise _ _ LB.inv_init]
+  have hmono := LB.bytewise_logMono LB.St.init text LB.inv_init
+  have hnl := LB.bytewise_lines_noNl LB.St.init text (by simp [LB.St.init])
+  have hinv := LB.bytewise_inv LB.St.init text LB.inv_init
+  have hoff := LB.bytewise_off LB.St.init text
+  cases hr : LB.bytewise LB.St.init text with
+  | mk lb log =>
+  rw [hr] at hmono hnl hinv hoff
+  simp only [LB.St.init, Nat.zero_add] at hoff
+  simp only at hmono hnl hinv hoff
+  have h0 : LB.lineStart LB.St.init = 0 := by simp [LB.lineStart, LB.St.init]
+  rw [h0] at hmono
+  obtain ⟨st1, hp1, hc1⟩ := processLog_inv CInv.init hmono hnl.1
+  simp only [hp1, Option.map_some, Creator.pre]
+  rw [LB.finish_of_inv lb hinv]
+  simp only
+  have hle : LB.lineStart lb ≤ lb.off := by simp [LB.lineStart]
+  have htail : ∃ st2, processLog st1 (if lb.leftover.isEmpty = true then [] else [(lb.off - lb.leftover.length, lb.leftover)])
+      = some st2 ∧ CInv lb.off st2 := by
+    by_cases he : lb.leftover.isEmpty = true
+    · rw [if_pos he]
+      exact ⟨st1, rfl, hc1.mono hle⟩
+    · rw [if_neg he]
+      apply processLog_inv hc1
+      · exact ⟨Nat.le_refl _, hle⟩
+      · intro p hp
+        rw [List.mem_singleton] at hp
+        subst hp
+        exact hnl.2
+  obtain ⟨st2, hp2, hc2⟩ := htail
+  rw [hp2]
+  simp only [Inner.pre]
+  obtain ⟨st3, hp3, hc3, hpend, _, _⟩ := finishPending_inv hc2 (Nat.le_refl _)
+  rw [hp3]
+  simp only
+  refine ⟨st3, by rw [← hoff]; exact hc3, hpend, ?_⟩
+  cases st3.hasModule <;> simp
+
+theorem toIndex_ok (pick : Pick) (st : Inner) (B : Nat) (h : CInv B st) (hB : B < pow64)
+    (hm : st.hasModule = true) : (st.toIndex pick).ok := by
+  constructor
+  · intro e he
+    have := h.files e (mem_intoSorted _ _ _ he)
+    exact ⟨this.1, this.2.1, by omega⟩
+  · intro e he
+    have := h.origins e (mem_intoSorted _ _ _ he)
+    exact ⟨this.1, this.2.1, by omega⟩
+  · intro a ha
+    simp only [Inner.toIndex, List.mem_map] at ha
+    obtain ⟨s, hs, rfl⟩ := ha
+    exact (h.symbols s (mem_sortDedup _ _ _ _ _ hs)).1
+  · intro e he
+    simp only [Inner.toIndex, List.mem_map] at he
+    obtain ⟨s, hs, rfl⟩ := he
+    have := h.symbols s (mem_sortDedup _ _ _ _ _ hs)
+    exact ⟨this.2.1, this.2.2.1, by omega⟩
+  · exact deriveModule_of_shape _ (h.module hm)
+
+theorem toIndex_sorted (pick : Pick) (st : Inner) (B : Nat) (h : CInv B st) :
+    (st.toIndex pick).addrs.Pairwise (· < ·) ∧
+    ((st.toIndex pick).files.map (·.index)).Pairwise (· < ·) ∧
+    ((st.toIndex pick).origins.map (·.index)).Pairwise (· < ·) ∧
+    (st.toIndex pick).addrs.length = (st.toIndex pick).entries.length := by
+  refine ⟨?_, intoSorted_sorted _ _ h.filesInv, intoSorted_sorted _ _ h.originsInv, by simp [Inner.toIndex]⟩
+  simp only [Inner.toIndex]
+  exact sortDedup_sorted (fun (s : Nat × SymEntry) => s.1) _ _ _
+
 end BP
